@@ -8,7 +8,7 @@ v4 part of C14.
     constructor in pair mode under the fork assumption, on the *effective* spelling of v4 vectors
     (the 11 base metrics, E, CR, IR, AR, and MSI/MSA - needed to reach Safety; every other
     Modified metric absent: by C06 the score depends on effective values only).
-    Both tiers: a seeded sample of (fork, step) cases (quick 14, thorough 84).
+    Both tiers: a seeded sample of (fork, step) cases (quick 28, thorough 600) among the 7,488 feasible ones.
 """
 
 import random
@@ -131,6 +131,38 @@ def fork_list():
     return [tuple(int(c) for c in k) for k in LOOKUP]
 
 
+def step_feasible(f, met, a):
+    """can a vector of macrovector f carry met = a?  (brute force over the metrics of the
+    equivalence class the metric belongs to, with the specification's EQ definitions)"""
+    import itertools
+
+    from spec import cvss4_spec as S4
+
+    def ex(names, doms, pred):
+        for combo in itertools.product(*doms):
+            v = dict(zip(names, combo))
+            if v.get(met, a) == a and pred(v):
+                return True
+        return False
+
+    if met in ("AV", "PR", "UI"):
+        return ex(["AV", "PR", "UI"], ["NALP", "NLH", "NPA"], lambda v: S4.eq1(v["AV"], v["PR"], v["UI"]) == f[0])
+    if met in ("AC", "AT"):
+        return ex(["AC", "AT"], ["LH", "NP"], lambda v: S4.eq2(v["AC"], v["AT"]) == f[1])
+    if met in ("VC", "VI", "VA", "CR", "IR", "AR"):
+        return ex(["VC", "VI", "VA", "CR", "IR", "AR"], ["HLN"] * 3 + ["HML"] * 3,
+                  lambda v: S4.eq3(v["VC"], v["VI"], v["VA"]) == f[2] and S4.eq6(v["VC"], v["VI"], v["VA"], v["CR"], v["IR"], v["AR"]) == f[5])
+    if met in ("SC", "SI", "SA", "MSI", "MSA"):
+        def p4(v):
+            si = v["MSI"] if v["MSI"] != "-" else v["SI"]
+            sa = v["MSA"] if v["MSA"] != "-" else v["SA"]
+            return S4.eq4(v["SC"], si, sa) == f[3]
+        return ex(["SC", "SI", "SA", "MSI", "MSA"], ["HLN", "HLN", "HLN", ["-", "N", "L", "H", "S"], ["-", "N", "L", "H", "S"]], p4)
+    if met == "E":
+        return S4.eq5(a) == f[4]
+    return True
+
+
 def tasks():
     out = [("task_table", (0,))]
     forks = fork_list()
@@ -138,20 +170,22 @@ def tasks():
     from spec import cvss4_spec as S4
 
     rng = random.Random(C.seed())
-    n = 14 if C.tier() == "quick" else 84
-    for f in rng.sample(forks, n):
+    n = 28 if C.tier() == "quick" else 600
+    # only (fork, step) cases in which the step can start inside the macrovector
+    cases = [(f, st) for f in forks for st in steps if step_feasible(f, st[0], st[1])]
+    for f, st in rng.sample(cases, n):
         d4s = None
         if S4.EQ4_DEPTH[f[3]] * S4.EQ36_DEPTH[(f[2], f[5])] >= 35:
             d4s = list(range(0, S4.EQ4_DEPTH[f[3]] + 3))
             rng.shuffle(d4s)
-        out.append(("task_fork", (f, [rng.choice(steps)], d4s)))
+        out.append(("task_fork", (f, [st], d4s)))
     return out
 
 
 def bounds():
     if C.tier() == "quick":
-        return ["v4: the table lemma on all 270 lookup entries (complete); product execution only for a seeded sample of 14 (macrovector fork, metric step) cases of the 270 x 31 (large macrovectors further restricted to one value of the EQ4 severity distance) - one such run costs minutes in this engine, so complete v4 coverage by product execution is NOT claimed"]
-    return ["v4: the table lemma on all 270 lookup entries (complete); product execution for a seeded sample of 84 (macrovector fork, metric step) cases of the 270 x 31 (large macrovectors further restricted to one value of the EQ4 severity distance): complete v4 coverage by product execution is NOT claimed"]
+        return ["v4: the table lemma on all 270 lookup entries (complete); product execution only for a seeded sample of 28 (macrovector fork, metric step) cases of the feasible ones among 270 x 31 (large macrovectors further restricted to one value of the EQ4 severity distance) - one such run costs minutes in this engine, so complete v4 coverage by product execution is NOT claimed"]
+    return ["v4: the table lemma on all 270 lookup entries (complete); product execution for a seeded sample of 600 (macrovector fork, metric step) cases of the feasible ones among 270 x 31 (large macrovectors further restricted to one value of the EQ4 severity distance): complete v4 coverage by product execution is NOT claimed"]
 
 
 def outside():
